@@ -15,6 +15,12 @@ RULE = (
     "non-trivial = apply() returned, at least one edit, at least one "
     "interval compared; distinct = distinct shape signatures (ISA/format + "
     "multiset of edit kind x position class x block terminator x patch end)."
+    " 20% of the scenarios run through PassManager (two passes),"
+    " offset-0 insertions also through AllFunctionsScope"
+    " (ENTRY/ANYWHERE); modules include leading uncovered bytes,"
+    " uninitialised tails, syscall terminators, symbolic"
+    " memory-indirect transfers; patches include temporary labels,"
+    " inline data, data for other sections, '.balign 1'."
 )
 ASSUMPTIONS = [
     "vocabulary byte table (tools/selftest_vocab.py) matches LLVM-MC and capstone",
